@@ -5,6 +5,7 @@ import (
 	"io"
 	"io/fs"
 	"os"
+	"path/filepath"
 	"sort"
 	"strings"
 	"syscall"
@@ -16,7 +17,11 @@ import (
 
 // KernelSys executes the calls through package os under a scratch directory on
 // tmpfs; virtual absolute paths are mapped below Root. Native runs only.
-type KernelSys struct{ Root string }
+type KernelSys struct {
+	Root     string
+	realRoot *os.File // chroot mode: the real root directory
+	dir      string   // chroot mode: the scratch directory (real path)
+}
 
 // NewKernel creates a fresh scratch directory under /dev/shm.
 func NewKernel() *KernelSys {
@@ -31,6 +36,16 @@ func NewKernel() *KernelSys {
 
 // Done removes the scratch directory.
 func (k *KernelSys) Done() {
+	if k.realRoot != nil {
+		// leave the chroot
+		_ = k.realRoot.Chdir()
+		_ = syscall.Chroot(".")
+		_ = k.realRoot.Close()
+		_ = os.Chdir("/")
+		_ = filepathWalkChmod(k.dir)
+		_ = os.RemoveAll(k.dir)
+		return
+	}
 	_ = os.Chmod(k.Root, 0o755)
 	_ = filepathWalkChmod(k.Root)
 	_ = os.RemoveAll(k.Root)
@@ -234,4 +249,37 @@ func (s *KernelFiles) CloseAll() {
 	for _, f := range s.Fs {
 		_ = f.Close()
 	}
+}
+
+// EvalSymlinks through path/filepath on the real tree.
+func (k *KernelSys) EvalSymlinks(p string) (string, int) {
+	r, err := filepath.EvalSymlinks(k.m(p))
+	if err != nil {
+		if strings.Contains(err.Error(), "too many links") {
+			return "", hx.ELOOP
+		}
+		return "", KCode(err)
+	}
+	return strings.TrimPrefix(r, k.Root), 0
+}
+
+// NewKernelChroot creates a scratch directory and confines the process to it
+// with chroot(2), so that symbolic links with arbitrary targets ("/..",
+// "../..") cannot reach anything outside; virtual paths are used as they are.
+func NewKernelChroot() *KernelSys {
+	syscall.Umask(0o022)
+	root, err := os.Open("/")
+	if err != nil {
+		panic(err)
+	}
+	d, err := os.MkdirTemp("/dev/shm", "verif-c")
+	if err != nil {
+		panic(err)
+	}
+	_ = os.Chmod(d, 0o755)
+	if err := syscall.Chroot(d); err != nil {
+		panic(err)
+	}
+	_ = os.Chdir("/")
+	return &KernelSys{Root: "", realRoot: root, dir: d}
 }
